@@ -82,6 +82,17 @@ CLAIMS = {
    note=COMMON_NOTE + NUM_NOTE + "PARTIAL: Renko's falling branch is validated, its theorem is not written; 'never panics on a "
         "boundary price' is a floating-point fact shown by the adaptive differential run, not by a theorem.",
    ref="DESIGN.md §5 C17"),
+
+ "C09": dict(cat="proof", tech="Lean 4 proofs of generic runner laws (any state machine) + exhaustive-route Rust-vs-Rust differential run",
+   text="Theorems for every state machine: one output per input; feeding xs++ys = feeding xs then ys (hence every chunking, empty "
+        "chunks included); new_over on [] and on x::xs; apply = over; the history wrapper returns the inner outputs and get(i) is "
+        "the i-th newest; the last-value wrapper is the inner machine after one extra leading initial value with peek = last "
+        "output; peek = last produced value per Peekable model. The Rust routes (over, call, apply, new_over, new_apply, into_fn, "
+        "new_fn, with_history, with_last_value, clones, peek) are compared bit-for-bit with next-by-next for 45 method types.",
+   note=COMMON_NOTE + "PARTIAL: determinism / clone independence of the compiled code are runtime facts about derived Clone on owned "
+        "data; they are exercised (clone at random points, original disturbed afterwards), not proved. Indicator-level over/init_fn "
+        "are covered by C11's suite. Known finding: Past::peek.",
+   ref="DESIGN.md §5 C09"),
 }
 
 checks = []
